@@ -285,7 +285,31 @@ func loadKnown() KnownFile {
 
 // ---- main ----
 
+// children are alternative entry points of the same binary, selected by the
+// environment variable VCHECK_CHILD (used by checkers that need crash-isolated
+// sub-processes with their own protocol).
+var children = map[string]func(){}
+
+func RegisterChild(name string, fn func()) { children[name] = fn }
+
+// SpawnChild prepares a command that re-executes this binary as the named child.
+func SpawnChild(name string, args ...string) *exec.Cmd {
+	self, _ := os.Executable()
+	cmd := exec.Command(self, args...)
+	cmd.Env = append(os.Environ(), "VCHECK_CHILD="+name)
+	return cmd
+}
+
 func Main() {
+	if name := os.Getenv("VCHECK_CHILD"); name != "" {
+		fn := children[name]
+		if fn == nil {
+			fmt.Fprintln(os.Stderr, "unknown child", name)
+			os.Exit(2)
+		}
+		fn()
+		return
+	}
 	var (
 		prop    = flag.String("prop", "", "property id")
 		tier    = flag.String("tier", envOr("VERIF_TIER", "quick"), "quick|thorough")
